@@ -13,6 +13,8 @@ import (
 	"sort"
 	"strconv"
 	"strings"
+	"sync"
+	"sync/atomic"
 	"testing"
 	"time"
 
@@ -40,6 +42,65 @@ type vrunner struct {
 	sigs     chan os.Signal
 	dead     bool
 	inRunner bool
+	// slow sink (`cfg.end slow`): the output queue has the 8 slots of cmd/hidi/main.go, is full of other devices'
+	// traffic whenever an event is processed, and its reader takes its time
+	slow    bool
+	slowMu  sync.Mutex
+	slowBuf []midi.Event
+	slowAck chan bool
+	// per message; 0: 20 µs
+	slowDelay time.Duration
+	// stall: the reader does not take anything for this long, once, when asked (a receiver that has stopped for a moment)
+	stallNs atomic.Int64
+	// `cfg.end stall`: slow, and at the disconnect the reader stalls for 150 ms with the queue full
+	stallAtEnd bool
+}
+
+var (
+	sinkFiller   = midi.Event{0xfe}       // Active Sensing: stands for another device's message in the shared queue
+	sinkSentinel = midi.Event{0xf7, 0x7d} // marks "everything before this has been taken"
+)
+
+func (r *vrunner) slowReader(ch chan midi.Event, ack chan bool) {
+	delay := r.slowDelay
+	if delay == 0 {
+		delay = 20 * time.Microsecond
+	}
+	for ev := range ch {
+		if d := r.stallNs.Swap(0); d > 0 {
+			time.Sleep(time.Duration(d))
+		}
+		time.Sleep(delay)
+		if len(ev) == 2 && ev[0] == sinkSentinel[0] && ev[1] == sinkSentinel[1] {
+			ack <- true
+			continue
+		}
+		if len(ev) == 1 && ev[0] == sinkFiller[0] {
+			continue
+		}
+		r.slowMu.Lock()
+		r.slowBuf = append(r.slowBuf, ev)
+		r.slowMu.Unlock()
+	}
+}
+
+// fill makes the queue full before the device gets to send
+func (r *vrunner) fill() {
+	if !r.slow {
+		return
+	}
+	for i := 0; i < cap(r.midiOut); i++ {
+		r.midiOut <- sinkFiller
+	}
+}
+
+// settle waits until the slow reader has taken everything sent so far
+func (r *vrunner) settle() {
+	if !r.slow {
+		return
+	}
+	r.midiOut <- sinkSentinel
+	<-r.slowAck
 }
 
 func atoi(s string) int {
@@ -63,6 +124,19 @@ func (r *vrunner) mapping(idx int) *config.KeyMapping {
 
 func (r *vrunner) drain() string {
 	var parts []string
+	if r.slow {
+		r.settle()
+		r.slowMu.Lock()
+		for _, ev := range r.slowBuf {
+			s := ""
+			for _, b := range ev {
+				s += fmt.Sprintf("%02x", b)
+			}
+			parts = append(parts, s)
+		}
+		r.slowBuf = nil
+		r.slowMu.Unlock()
+	}
 	for {
 		select {
 		case ev := <-r.midiOut:
@@ -109,6 +183,7 @@ func (r *vrunner) event(ie *input.InputEvent) string {
 				panicked = true
 			}
 		}()
+		r.fill()
 		r.dev.processEvent(ie)
 	}()
 	out := r.drain()
@@ -133,6 +208,7 @@ func (r *vrunner) line(toks []string) (string, bool) {
 		}
 		r.axes = map[string]map[evdev.EvCode]evdev.AbsInfo{}
 		r.dead = false
+		r.slow, r.slowBuf = false, nil // a slow reader of an earlier case stays parked on its own (empty) queue
 		return "", false
 	case "cfg.map":
 		r.cfg.KeyMappings = append(r.cfg.KeyMappings, config.KeyMapping{
@@ -208,6 +284,13 @@ func (r *vrunner) line(toks []string) (string, bool) {
 		return "", false
 	case "cfg.end":
 		r.midiOut = make(chan midi.Event, 1<<14)
+		r.stallAtEnd = len(toks) > 1 && toks[1] == "stall"
+		if len(toks) > 1 && (toks[1] == "slow" || toks[1] == "stall") {
+			r.slow = true
+			r.midiOut = make(chan midi.Event, 8)
+			r.slowAck = make(chan bool)
+			go r.slowReader(r.midiOut, r.slowAck)
+		}
 		r.midiIn = make(chan midi.Event)
 		r.sigs = make(chan os.Signal, 1024)
 		inputDevice := input.Device{Name: "Dummy", DeviceType: input.KeyboardDevice, AbsInfos: r.axes}
@@ -263,6 +346,12 @@ func (r *vrunner) line(toks []string) (string, bool) {
 				}
 				done <- true
 			}()
+			if r.slow && r.stallAtEnd {
+				// the reader takes one more message and then nothing for 150 ms; the queue is full meanwhile
+				r.stallNs.Store(int64(150 * time.Millisecond))
+				r.midiOut <- sinkFiller
+			}
+			r.fill()
 			r.dev.ProcessEvents(ch)
 		}()
 		select {
